@@ -40,3 +40,54 @@ pub trait VxVecExt<T> { fn vx_into_iter(self) -> VxIter<T>; }
 pub fn vx_vec_into_iter<T>(v: Vec<T>) -> (r: VxIter<T>) ensures r.items() == v@ { unimplemented!() }
 /// rule R6: `Either::Left(x)` / `Either::Right(x)` that only unify two iterator types become `vx_id(x)`
 pub fn vx_id<T>(t: T) -> (r: T) ensures r == t { t }
+/// `.iter()` on `Arc<Vec<T>>` / `Vec<T>` in a position that feeds model-iterator adaptors
+#[verifier::external_body]
+pub fn vx_arc_vec_iter<T>(v: &Arc<Vec<T>>) -> (r: VxIter<&T>)
+    ensures r.items().len() == v@.len(), forall|i: int| #![trigger r.items()[i]] #![trigger v@[i]] 0 <= i < v@.len() ==> *r.items()[i] == v@[i]
+{ unimplemented!() }
+/// `a.into_iter().zip(b)`
+#[verifier::external_body]
+pub fn vx_zip<A, B>(a: Vec<A>, b: VxIter<B>) -> (r: VxIter<(A, B)>)
+    ensures r.items().len() == (if a@.len() <= b.items().len() { a@.len() } else { b.items().len() }),
+        forall|i: int| 0 <= i < r.items().len() ==> #[trigger] r.items()[i] == (a@[i], b.items()[i])
+{ unimplemented!() }
+/// `v.into_iter().unzip()`
+#[verifier::external_body]
+pub fn vx_unzip<A, B>(v: Vec<(A, B)>) -> (r: (Vec<A>, Vec<B>))
+    ensures r.0@.len() == v@.len(), r.1@.len() == v@.len(), forall|i: int| 0 <= i < v@.len() ==> #[trigger] v@[i] == (r.0@[i], r.1@[i])
+{ unimplemented!() }
+/// first index holding an Err, if any
+pub open spec fn vx_first_err<T, E>(s: Seq<std::result::Result<T, E>>) -> Option<int> {
+    if exists|i: int| 0 <= i < s.len() && s[i] is Err { Some(choose|i: int| 0 <= i < s.len() && s[i] is Err && forall|j: int| 0 <= j < i ==> s[j] is Ok) } else { None }
+}
+/// `collect::<Result<Vec<T>, E>>()`: all the Ok values in order, or the first error
+impl<T, E> VxFromIter<std::result::Result<T, E>> for std::result::Result<Vec<T>, E> {
+    open spec fn vx_built_from(&self, items: Seq<std::result::Result<T, E>>) -> bool {
+        if forall|i: int| 0 <= i < items.len() ==> (#[trigger] items[i]) is Ok {
+            *self is Ok && self->Ok_0@.len() == items.len() && forall|i: int| 0 <= i < items.len() ==> #[trigger] items[i] == Ok::<T, E>(self->Ok_0@[i])
+        } else {
+            *self is Err && exists|i: int| 0 <= i < items.len() && #[trigger] items[i] == Err::<T, E>(self->Err_0) && forall|j: int| 0 <= j < i ==> (#[trigger] items[j]) is Ok
+        }
+    }
+}
+impl<T> VxIter<T> {
+    #[verifier::external_body]
+    pub fn any<F: Fn(T) -> bool>(self, f: F) -> (r: bool)
+        requires forall|i: int| 0 <= i < self.items().len() ==> f.requires((#[trigger] self.items()[i],))
+        ensures r == (exists|i: int| 0 <= i < self.items().len() && f.ensures((#[trigger] self.items()[i],), true)),
+            !r ==> forall|i: int| 0 <= i < self.items().len() ==> f.ensures((#[trigger] self.items()[i],), false),
+    { unimplemented!() }
+    #[verifier::external_body]
+    pub fn filter_map<U, F: Fn(T) -> Option<U>>(self, f: F) -> (r: VxIter<U>)
+        requires forall|i: int| 0 <= i < self.items().len() ==> f.requires((#[trigger] self.items()[i],))
+        ensures
+            // every yielded item comes from some source item mapped to Some, in order; the first yielded item is the image of the first such source item
+            forall|j: int| 0 <= j < r.items().len() ==> exists|i: int| 0 <= i < self.items().len() && f.ensures((#[trigger] self.items()[i],), Some(#[trigger] r.items()[j])),
+            (r.items().len() == 0) == (forall|i: int| 0 <= i < self.items().len() ==> f.ensures((#[trigger] self.items()[i],), None::<U>)),
+    { unimplemented!() }
+    #[verifier::external_body]
+    pub fn next(&mut self) -> (r: Option<T>)
+        ensures r == (if old(self).items().len() > 0 { Some(old(self).items()[0]) } else { None }),
+            final(self).items() == (if old(self).items().len() > 0 { old(self).items().drop_first() } else { old(self).items() }),
+    { unimplemented!() }
+}
